@@ -1,5 +1,11 @@
 // Package c08 decides C08: arrays.Array2D behaves as width x height independent
 // cells for every shape.
+//
+// Files: c08_test.go   the case format, the generic executor/oracle (runT), C08.enum and C08.rand
+//
+//	types_test.go    element types with special characteristics, C08.types, huge zero-size grids (C08.huge)
+//	big_test.go      C08.big: grids and rectangles around every power of two up to 2^17 (2^21) cells
+//	extreme_test.go  C08.extreme: coordinates at the top/bottom of the int range, overflowing flat indices
 package c08
 
 import (
@@ -22,17 +28,24 @@ type Case struct {
 	W    int   `json:"w"`
 	H    int   `json:"h"`
 	Ctor int   `json:"ctor"` // 0 New2D, 1 New2DFilled, 2 New2DFromJagged
-	Jag  []int `json:"jag"`  // ctor 2: length of each jagged row, -1 = nil row; values are 100+32*row+col
+	Jag  []int `json:"jag"`  // ctor 2: length of each jagged row, -1 = nil row; values are jagCode(row,col)
 	Ops  []Op  `json:"ops"`
+	// T names the element type ("" = int, see types_test.go). Values are addressed by an int code:
+	// code >= 0 is an ordinary value (different codes give distinguishable values unless the type has
+	// too few), code -1 is the zero value of the type, -2, -3, ... its other special values (-0.0, NaN,
+	// nil, empty non-nil slice, MaxInt, ...), cyclically.
+	T string `json:"t,omitempty"`
+	// FillV is the code of the value given to New2DFilled; 0 = the ordinary value 7.
+	FillV int `json:"fillv,omitempty"`
 }
 
 // Op kinds.
 const (
-	OpSet     = iota // Set(X1,Y1, fresh value)
+	OpSet     = iota // Set(X1,Y1, value)
 	OpGet            // Get(X1,Y1)
-	OpRow            // Row(Y1): contents, write-through, Set seen through the slice
+	OpRow            // Row(Y1): contents, write-through, Set seen through the slice; the slice is kept and re-checked after every later operation
 	OpRowSpan        // RowSpan(X1,X2,Y1) (X1,X2 are swapped if both are in bounds and X1 > X2: the documented domain is x1 <= x2)
-	OpFill           // Fill(X1,Y1,X2,Y2, fresh value), corners in any order
+	OpFill           // Fill(X1,Y1,X2,Y2, value), corners in any order
 	OpClone          // Clone; B even: keep working on the original, the clone becomes a frozen witness; B odd: the other way round
 	OpString         // String
 	OpDims           // Width, Height
@@ -48,29 +61,49 @@ type Op struct {
 	X2 int `json:"x2"`
 	Y2 int `json:"y2"`
 	B  int `json:"b"`
+	V  int `json:"v,omitempty"` // Set, Fill: 0 = a fresh unique value, < 0 = that special value of the element type
 }
 
-const rule = "case = shape (w,h >= 0), constructor (New2D / New2DFilled / New2DFromJagged with rows shorter, longer, more, fewer, nil), " +
+const rule = "case = shape (w,h >= 0), element type, constructor (New2D / New2DFilled with an ordinary or a special value such as the zero value / " +
+	"New2DFromJagged with rows shorter, longer, more, fewer, nil; the jagged input is overwritten by the caller afterwards), " +
 	"then a script of Set/Get/Row/RowSpan/Fill/Clone/String/Width+Height with coordinates inside and outside the bounds; oracle = " +
-	"flat cell model with a fresh unique value per write; after the constructor and after EVERY operation Get over the whole grid " +
+	"flat cell model with a fresh unique value per write (or a special value of the element type: zero value, -0.0, nil, ...); " +
+	"after the constructor and after EVERY operation Get over the whole grid " +
 	"must equal the model (so a write that aliases another cell, or a panic that altered the array, is seen at once); out-of-bounds " +
 	"coordinate => must panic and leave the grid unchanged; Row/RowSpan: length, contents, every element written through the slice " +
-	"(then whole grid compared), then every cell of the window Set and seen through the slice; Fill = inclusive rectangle whichever " +
+	"(then whole grid compared), then every cell of the window Set and seen through the slice, and the last three returned slices are " +
+	"kept and must stay live windows after every later operation; Fill = inclusive rectangle whichever " +
 	"corners; Clone: the side not worked on is a frozen witness compared cell by cell after every later mutation; String == model " +
-	"rendered [[a b] [c d]] at the end of every case. non-trivial = w != h, both >= 2, and at least one successful write in the " +
-	"last row and one in the last column"
+	"rendered [[a b] [c d]] (cells as fmt.Sprint) at the end of every case of at most 1024 cells (and wherever the script has a String operation). non-trivial = w != h, both >= 2, " +
+	"and at least one successful write in the last row and one in the last column"
 
-type model struct {
+// maxCells bounds the grids the executor accepts (the whole grid is read back after every operation).
+const maxCells = 1 << 22
+
+// stringCells: the closing String comparison is done for grids up to this many cells (larger ones only by an explicit String op).
+const stringCells = 1 << 10
+
+// desc describes one element type.
+type desc[T any] struct {
+	name     string
+	val      func(code int) T                             // see Case.T
+	eq       func(a, b T) bool                            // "the same value came back" (bit patterns for floats, identity for slices, maps, pointers)
+	nspecial int                                          // number of special values (codes -1 .. -nspecial)
+	zeroSize bool                                         // all values are indistinguishable
+	jag      func(w, h int, rows [][]T) arrays.Array2D[T] // nil = arrays.New2DFromJagged(w, h, rows)
+}
+
+type model[T any] struct {
 	w, h  int
-	cells []int
+	cells []T
 }
 
-func (m *model) clone() *model {
-	return &model{w: m.w, h: m.h, cells: append([]int(nil), m.cells...)}
+func (m *model[T]) clone() *model[T] {
+	return &model[T]{w: m.w, h: m.h, cells: append([]T(nil), m.cells...)}
 }
-func (m *model) inX(x int) bool { return x >= 0 && x < m.w }
-func (m *model) inY(y int) bool { return y >= 0 && y < m.h }
-func (m *model) String() string {
+func (m *model[T]) inX(x int) bool { return x >= 0 && x < m.w }
+func (m *model[T]) inY(y int) bool { return y >= 0 && y < m.h }
+func (m *model[T]) String() string {
 	var sb strings.Builder
 	sb.WriteByte('[')
 	for y := 0; y < m.h; y++ {
@@ -82,7 +115,11 @@ func (m *model) String() string {
 			if x > 0 {
 				sb.WriteByte(' ')
 			}
-			sb.WriteString(strconv.Itoa(m.cells[y*m.w+x]))
+			if iv, ok := any(m.cells[y*m.w+x]).(int); ok {
+				sb.WriteString(strconv.Itoa(iv))
+			} else {
+				fmt.Fprint(&sb, m.cells[y*m.w+x])
+			}
 		}
 		sb.WriteByte(']')
 	}
@@ -98,13 +135,25 @@ func try(f func()) (p any) {
 }
 
 // diff compares Get over the whole grid with the model; "" if equal.
-func diff(a arrays.Array2D[int], m *model) (msg string) {
+func diff[T any](a arrays.Array2D[T], m *model[T], d *desc[T]) (msg string) {
 	x, y := 0, 0
 	p := try(func() {
+		if ai, ok := any(a).(arrays.Array2D[int]); ok { // same loop without the indirect call
+			cells := any(m).(*model[int]).cells
+			for y = 0; y < m.h; y++ {
+				for x = 0; x < m.w; x++ {
+					if got := ai.Get(x, y); got != cells[y*m.w+x] {
+						msg = fmt.Sprintf("Get(%d,%d) = %v, want %v", x, y, got, cells[y*m.w+x])
+						return
+					}
+				}
+			}
+			return
+		}
 		for y = 0; y < m.h; y++ {
 			for x = 0; x < m.w; x++ {
-				if got := a.Get(x, y); got != m.cells[y*m.w+x] {
-					msg = fmt.Sprintf("Get(%d,%d) = %d, want %d", x, y, got, m.cells[y*m.w+x])
+				if got := a.Get(x, y); !d.eq(got, m.cells[y*m.w+x]) {
+					msg = fmt.Sprintf("Get(%d,%d) = %v, want %v", x, y, got, m.cells[y*m.w+x])
 					return
 				}
 			}
@@ -116,42 +165,114 @@ func diff(a arrays.Array2D[int], m *model) (msg string) {
 	return msg
 }
 
-type witness struct {
-	a    arrays.Array2D[int]
-	m    *model
-	what string
+type witness[T any] struct {
+	a    arrays.Array2D[T]
+	m    *model[T]
+	step int
+	orig bool // the original is the witness, the script continued on the clone
 }
 
-func jagValue(r, c int) int { return 100 + 32*r + c }
+func (w witness[T]) what() string {
+	if w.orig {
+		return fmt.Sprintf("original (cloned at step %d, script continued on the clone)", w.step)
+	}
+	return fmt.Sprintf("clone taken at step %d", w.step)
+}
 
+// kept is a slice returned earlier by Row/RowSpan; it must remain a live window of the array it was taken from.
+type kept[T any] struct {
+	win       []T
+	m         *model[T]
+	x1, x2, y int
+	row       bool
+	step      int
+}
+
+func (k kept[T]) what() string {
+	if k.row {
+		return fmt.Sprintf("Row(%d) at step %d", k.y, k.step)
+	}
+	return fmt.Sprintf("RowSpan(%d,%d,%d) at step %d", k.x1, k.x2, k.y, k.step)
+}
+
+// jagCode is the value code of element col of jagged row r.
+func jagCode(r, c int) int { return 2_000_000_000 + 1_000_003*r + c }
+
+// runners maps Case.T to the executor instantiated for that element type.
+var runners = map[string]func(Case) pbt.Outcome{}
+
+// nspecials maps Case.T to the number of special values of the type.
+var nspecials = map[string]int{}
+
+// typeOrder lists the registered element types in a fixed order ("" = int first).
+var typeOrder []string
+
+func regType[T any](name string, mk func() *desc[T]) {
+	if _, dup := runners[name]; dup {
+		panic("c08: duplicate element type " + name)
+	}
+	runners[name] = func(c Case) pbt.Outcome { return runT(c, mk()) }
+	nspecials[name] = mk().nspecial
+	typeOrder = append(typeOrder, name)
+}
+
+// Run executes one case on the element type it names.
 func Run(c Case) pbt.Outcome {
+	r, ok := runners[c.T]
+	if !ok {
+		return pbt.Outcome{Skipped: true}
+	}
+	return r(c)
+}
+
+func runT[T any](c Case, d *desc[T]) pbt.Outcome {
 	out := pbt.Outcome{}
 	w, h := c.W, c.H
-	if w < 0 || h < 0 || w > 64 || h > 64 {
+	if w < 0 || h < 0 || w > maxCells || h > maxCells || w*h > maxCells {
 		out.Skipped = true
 		return out
 	}
 	lab := func(l string) { out.Labels = append(out.Labels, l) }
 	shape := fmt.Sprintf("%dx%d", w, h)
-	m := &model{w: w, h: h, cells: make([]int, w*h)}
-	var a arrays.Array2D[int]
+	if d.name != "" {
+		shape += " " + d.name
+		lab("type:" + d.name)
+	} else {
+		lab("type:int")
+	}
+	m := &model[T]{w: w, h: h, cells: make([]T, w*h)}
+	var a arrays.Array2D[T]
 	var ctor string
 	var p any
+	var jag [][]T
 	switch mod(c.Ctor, 3) {
 	case 0:
 		ctor = fmt.Sprintf("New2D(%d,%d)", w, h)
-		p = try(func() { a = arrays.New2D[int](w, h) })
+		p = try(func() { a = arrays.New2D[T](w, h) })
 		lab("ctor:New2D")
 	case 1:
-		ctor = fmt.Sprintf("New2DFilled(%d,%d,7)", w, h)
-		for i := range m.cells {
-			m.cells[i] = 7
+		code := c.FillV
+		if code == 0 {
+			code = 7
 		}
-		p = try(func() { a = arrays.New2DFilled(w, h, 7) })
-		lab("ctor:New2DFilled")
+		v := d.val(code)
+		ctor = fmt.Sprintf("New2DFilled(%d,%d,%s)", w, h, valName(code, v))
+		for i := range m.cells {
+			m.cells[i] = v
+		}
+		p = try(func() { a = arrays.New2DFilled(w, h, v) })
+		switch {
+		case code >= 0:
+			lab("ctor:New2DFilled")
+		case d.nspecial > 0 && mod(-code-1, d.nspecial) == 0:
+			lab("ctor:New2DFilled(zero value)")
+		default:
+			lab("ctor:New2DFilled(special value)")
+		}
 	case 2:
-		jag := make([][]int, len(c.Jag))
+		jag = make([][]T, len(c.Jag))
 		more, fewer, longer, shorter, nilrow := len(c.Jag) > h, len(c.Jag) < h, false, false, false
+		total := 0
 		for r, n := range c.Jag {
 			if n < 0 {
 				nilrow = true
@@ -160,14 +281,15 @@ func Run(c Case) pbt.Outcome {
 				}
 				continue
 			}
-			if n > 64 {
-				n = 64
+			if total+n > 2*maxCells {
+				n = 0
 			}
-			jag[r] = make([]int, n)
+			total += n
+			jag[r] = make([]T, n)
 			for x := range jag[r] {
-				jag[r][x] = jagValue(r, x)
+				jag[r][x] = d.val(jagCode(r, x))
 				if r < h && x < w {
-					m.cells[r*w+x] = jagValue(r, x)
+					m.cells[r*w+x] = jag[r][x]
 				}
 			}
 			if n > w {
@@ -177,8 +299,18 @@ func Run(c Case) pbt.Outcome {
 				shorter = true
 			}
 		}
-		ctor = fmt.Sprintf("New2DFromJagged(%d,%d, rows with lengths %v (-1 = nil))", w, h, c.Jag)
-		p = try(func() { a = arrays.New2DFromJagged(w, h, jag) })
+		if len(c.Jag) <= 20 {
+			ctor = fmt.Sprintf("New2DFromJagged(%d,%d, rows with lengths %v (-1 = nil))", w, h, c.Jag)
+		} else {
+			ctor = fmt.Sprintf("New2DFromJagged(%d,%d, %d rows with lengths %v... (-1 = nil))", w, h, len(c.Jag), c.Jag[:20])
+		}
+		p = try(func() {
+			if d.jag != nil {
+				a = d.jag(w, h, jag)
+			} else {
+				a = arrays.New2DFromJagged(w, h, jag)
+			}
+		})
 		lab("ctor:New2DFromJagged")
 		for _, x := range []struct {
 			on bool
@@ -191,13 +323,29 @@ func Run(c Case) pbt.Outcome {
 		}
 	}
 	if p != nil {
-		return pbt.Fail("%s panicked: %v", ctor, p)
+		return pbt.Fail("%s (element type %s) panicked: %v", ctor, typeName(d), p)
 	}
 	if a.Width() != w || a.Height() != h {
 		return pbt.Fail("%s: Width,Height = %d,%d", ctor, a.Width(), a.Height())
 	}
-	if d := diff(a, m); d != "" {
-		return pbt.Fail("%s: %s", ctor, d)
+	if df := diff(a, m, d); df != "" {
+		return pbt.Fail("%s (element type %s): %s", ctor, typeName(d), df)
+	}
+	if jag != nil {
+		// the array has its own cells: the caller may reuse the jagged input
+		n := 0
+		for r := range jag {
+			for x := range jag[r] {
+				jag[r][x] = d.val(900_000_000 + n)
+				n++
+			}
+		}
+		if n > 0 {
+			if df := diff(a, m, d); df != "" {
+				return pbt.Fail("%s (element type %s), then the caller overwrote the jagged input: the array changed: %s", ctor, typeName(d), df)
+			}
+			lab("jag:input-overwritten-afterwards")
+		}
 	}
 	out.Evals = 1
 	switch {
@@ -210,9 +358,31 @@ func Run(c Case) pbt.Outcome {
 	default:
 		lab("shape:tall(h>w)")
 	}
+	switch n := w * h; {
+	case n <= 64:
+		lab("cells:<=64")
+	case n <= 1024:
+		lab("cells:65..1024")
+	case n <= 4096:
+		lab("cells:1025..4096")
+	case n <= 65536:
+		lab("cells:4097..65536")
+	default:
+		lab("cells:>65536")
+	}
 
 	next := 1000
 	fresh := func() int { next++; return next }
+	// value of a Set/Fill: fresh unless the op asks for a special value
+	opValue := func(op Op) (T, int) {
+		code := op.V
+		if code >= 0 || d.nspecial == 0 {
+			code = fresh()
+		} else {
+			lab(opName[mod(op.K, int(nOps))] + ":special-value")
+		}
+		return d.val(code), code
+	}
 	lastRow, lastCol := false, false
 	wrote := func(x1, y1, x2, y2 int) { // inclusive, sorted
 		if y2 == h-1 {
@@ -222,16 +392,25 @@ func Run(c Case) pbt.Outcome {
 			lastCol = true
 		}
 	}
-	var wits []witness
+	var wits []witness[T]
+	var keeps []kept[T]
 	hist := ctor + ";"
 	// verify is called after every operation
-	verify := func(step int, call string) string {
-		if d := diff(a, m); d != "" {
-			return fmt.Sprintf("%s array, step %d, after %s: %s; history: %s", shape, step, call, d, hist)
+	verify := func(step int, callf func() string) string {
+		if df := diff(a, m, d); df != "" {
+			return fmt.Sprintf("%s array, step %d, after %s: %s; history: %s", shape, step, callf(), df, hist)
 		}
 		for _, wt := range wits {
-			if d := diff(wt.a, wt.m); d != "" {
-				return fmt.Sprintf("%s array, step %d, after %s on the other side: the %s changed: %s; history: %s", shape, step, call, wt.what, d, hist)
+			if df := diff(wt.a, wt.m, d); df != "" {
+				return fmt.Sprintf("%s array, step %d, after %s on the other side: the %s changed: %s; history: %s", shape, step, callf(), wt.what(), df, hist)
+			}
+		}
+		for _, k := range keeps {
+			for i := range k.win {
+				if !d.eq(k.win[i], k.m.cells[k.y*w+k.x1+i]) {
+					return fmt.Sprintf("%s array, step %d, after %s: the slice returned earlier by %s is no longer a live window: slice[%d] = %v, cell (%d,%d) = %v; history: %s",
+						shape, step, callf(), k.what(), i, k.win[i], k.x1+i, k.y, k.m.cells[k.y*w+k.x1+i], hist)
+				}
 			}
 		}
 		return ""
@@ -239,15 +418,15 @@ func Run(c Case) pbt.Outcome {
 
 	for step, op := range c.Ops {
 		k := mod(op.K, int(nOps))
-		var call string
+		var callf func() string // built only when a message or the history needs it
 		fail := func(format string, args ...any) pbt.Outcome {
-			return pbt.Fail("%s array, step %d, %s: %s; history: %s", shape, step, call, fmt.Sprintf(format, args...), hist)
+			return pbt.Fail("%s array, step %d, %s: %s; history: %s", shape, step, callf(), fmt.Sprintf(format, args...), hist)
 		}
 		switch k {
 		case OpSet:
 			x, y := op.X1, op.Y1
-			v := fresh()
-			call = fmt.Sprintf("Set(%d,%d,%d)", x, y, v)
+			v, code := opValue(op)
+			callf = func() string { return fmt.Sprintf("Set(%d,%d,%s)", x, y, valName(code, v)) }
 			p := try(func() { a.Set(x, y, v) })
 			if m.inX(x) && m.inY(y) {
 				if p != nil {
@@ -260,35 +439,35 @@ func Run(c Case) pbt.Outcome {
 				if p == nil {
 					return fail("did not panic although the coordinate is outside the bounds")
 				}
-				lab(oobLabel("Set", m, []int{x}, []int{y}))
+				oobLabels(&out, "Set", w, h, []int{x}, []int{y})
 			}
 		case OpGet:
 			x, y := op.X1, op.Y1
-			call = fmt.Sprintf("Get(%d,%d)", x, y)
-			var got int
+			callf = func() string { return fmt.Sprintf("Get(%d,%d)", x, y) }
+			var got T
 			p := try(func() { got = a.Get(x, y) })
 			if m.inX(x) && m.inY(y) {
 				if p != nil {
 					return fail("panicked inside the bounds: %v", p)
 				}
-				if got != m.cells[y*w+x] {
-					return fail("= %d, want %d", got, m.cells[y*w+x])
+				if !d.eq(got, m.cells[y*w+x]) {
+					return fail("= %v, want %v", got, m.cells[y*w+x])
 				}
 				lab("Get:in")
 			} else {
 				if p == nil {
-					return fail("did not panic although the coordinate is outside the bounds (returned %d)", got)
+					return fail("did not panic although the coordinate is outside the bounds (returned %v)", got)
 				}
-				lab(oobLabel("Get", m, []int{x}, []int{y}))
+				oobLabels(&out, "Get", w, h, []int{x}, []int{y})
 			}
 		case OpRow, OpRowSpan:
 			y := op.Y1
 			x1, x2 := 0, w-1
-			var win []int
+			var win []T
 			var p any
 			valid := m.inY(y)
 			if k == OpRow {
-				call = fmt.Sprintf("Row(%d)", y)
+				callf = func() string { return fmt.Sprintf("Row(%d)", y) }
 				p = try(func() { win = a.Row(y) })
 			} else {
 				x1, x2 = op.X1, op.X2
@@ -296,7 +475,7 @@ func Run(c Case) pbt.Outcome {
 					x1, x2 = x2, x1
 				}
 				valid = valid && m.inX(x1) && m.inX(x2)
-				call = fmt.Sprintf("RowSpan(%d,%d,%d)", x1, x2, y)
+				callf = func() string { return fmt.Sprintf("RowSpan(%d,%d,%d)", x1, x2, y) }
 				p = try(func() { win = a.RowSpan(x1, x2, y) })
 			}
 			if !valid {
@@ -304,9 +483,9 @@ func Run(c Case) pbt.Outcome {
 					return fail("did not panic although a coordinate is outside the bounds (returned a slice of length %d)", len(win))
 				}
 				if k == OpRow {
-					lab("Row:oob")
+					oobLabels(&out, "Row", w, h, nil, []int{y})
 				} else {
-					lab(oobLabel("RowSpan", m, []int{op.X1, op.X2}, []int{y}))
+					oobLabels(&out, "RowSpan", w, h, []int{op.X1, op.X2}, []int{y})
 				}
 				break
 			}
@@ -317,32 +496,40 @@ func Run(c Case) pbt.Outcome {
 				return fail("returned a slice of length %d, want %d", len(win), x2-x1+1)
 			}
 			for i := range win {
-				if win[i] != m.cells[y*w+x1+i] {
-					return fail("slice[%d] = %d, want cell (%d,%d) = %d", i, win[i], x1+i, y, m.cells[y*w+x1+i])
+				if !d.eq(win[i], m.cells[y*w+x1+i]) {
+					return fail("slice[%d] = %v, want cell (%d,%d) = %v", i, win[i], x1+i, y, m.cells[y*w+x1+i])
 				}
 			}
 			// write through every element of the window: exactly those cells change
 			for i := range win {
-				v := fresh()
+				v := d.val(fresh())
 				win[i] = v
 				m.cells[y*w+x1+i] = v
 			}
 			if len(win) > 0 {
 				wrote(x1, y, x2, y)
 			}
-			if d := verify(step, call+" and writing every element of the returned slice"); d != "" {
-				return pbt.Fail("%s", d)
+			if df := verify(step, func() string { return callf() + " and writing every element of the returned slice" }); df != "" {
+				return pbt.Fail("%s", df)
 			}
 			// Set on the array is seen through the slice
 			for i := range win {
-				v := fresh()
+				code := fresh()
+				v := d.val(code)
 				if p := try(func() { a.Set(x1+i, y, v) }); p != nil {
-					return fail("then Set(%d,%d,%d) panicked inside the bounds: %v", x1+i, y, v, p)
+					return fail("then Set(%d,%d,%s) panicked inside the bounds: %v", x1+i, y, valName(code, v), p)
 				}
 				m.cells[y*w+x1+i] = v
-				if win[i] != v {
-					return fail("slice is not a live window: after Set(%d,%d,%d) slice[%d] = %d", x1+i, y, v, i, win[i])
+				if !d.eq(win[i], v) {
+					return fail("slice is not a live window: after Set(%d,%d,%s) slice[%d] = %v", x1+i, y, valName(code, v), i, win[i])
 				}
+			}
+			if len(win) > 0 {
+				if len(keeps) >= 3 {
+					keeps = keeps[1:]
+				}
+				keeps = append(keeps, kept[T]{win: win, m: m, x1: x1, y: y, row: k == OpRow, x2: x2, step: step})
+				lab("window:kept-and-rechecked-later")
 			}
 			switch {
 			case k == OpRow:
@@ -356,8 +543,9 @@ func Run(c Case) pbt.Outcome {
 			}
 		case OpFill:
 			x1, y1, x2, y2 := op.X1, op.Y1, op.X2, op.Y2
-			v := fresh()
-			call = fmt.Sprintf("Fill(%d,%d,%d,%d,%d)", x1, y1, x2, y2, v)
+			v, code := opValue(op)
+			fx1, fy1, fx2, fy2 := x1, y1, x2, y2
+			callf = func() string { return fmt.Sprintf("Fill(%d,%d,%d,%d,%s)", fx1, fy1, fx2, fy2, valName(code, v)) }
 			p := try(func() { a.Fill(x1, y1, x2, y2, v) })
 			if m.inX(x1) && m.inX(x2) && m.inY(y1) && m.inY(y2) {
 				if p != nil {
@@ -397,69 +585,86 @@ func Run(c Case) pbt.Outcome {
 				default:
 					lab("Fill:proper-rectangle")
 				}
+				switch n := x2 - x1 + 1; {
+				case n > 4096:
+					lab("Fill:row-width>4096")
+				case n > 256:
+					lab("Fill:row-width 257..4096")
+				case n > 32:
+					lab("Fill:row-width 33..256")
+				}
 			} else {
 				if p == nil {
 					return fail("did not panic although a corner is outside the bounds")
 				}
-				lab(oobLabel("Fill", m, []int{x1, x2}, []int{y1, y2}))
+				oobLabels(&out, "Fill", w, h, []int{x1, x2}, []int{y1, y2})
 			}
 		case OpClone:
-			call = "Clone()"
-			var cl arrays.Array2D[int]
+			callf = func() string { return "Clone()" }
+			var cl arrays.Array2D[T]
 			if p := try(func() { cl = a.Clone() }); p != nil {
 				return fail("panicked: %v", p)
 			}
 			if cl.Width() != w || cl.Height() != h {
 				return fail("clone has Width,Height = %d,%d", cl.Width(), cl.Height())
 			}
-			if d := diff(cl, m); d != "" {
-				return fail("clone differs from the original: %s", d)
+			if df := diff(cl, m, d); df != "" {
+				return fail("clone differs from the original: %s", df)
 			}
 			if len(wits) >= 2 {
 				wits = wits[1:]
 			}
 			if mod(op.B, 2) == 0 {
-				wits = append(wits, witness{cl, m.clone(), fmt.Sprintf("clone taken at step %d", step)})
+				wits = append(wits, witness[T]{a: cl, m: m.clone(), step: step})
 				lab("Clone:continue-on-original")
 			} else {
-				wits = append(wits, witness{a, m.clone(), fmt.Sprintf("original (cloned at step %d, script continued on the clone)", step)})
+				wm := m.clone()
+				wits = append(wits, witness[T]{a: a, m: wm, step: step, orig: true})
+				// slices taken from the original stay windows of the original
+				for i := range keeps {
+					if keeps[i].m == m {
+						keeps[i].m = wm
+					}
+				}
 				a = cl
 				lab("Clone:continue-on-clone")
 			}
 		case OpString:
-			call = "String()"
+			callf = func() string { return "String()" }
 			var s string
 			if p := try(func() { s = a.String() }); p != nil {
 				return fail("panicked: %v", p)
 			}
 			if want := m.String(); s != want {
-				return fail("= %q, want %q", s, want)
+				return fail("= %s, want %s", clip(s), clip(want))
 			}
 			lab("String")
 		case OpDims:
-			call = "Width(),Height()"
+			callf = func() string { return "Width(),Height()" }
 			if a.Width() != w || a.Height() != h {
 				return fail("= %d,%d", a.Width(), a.Height())
 			}
 			lab("Dims")
 		}
 		out.Evals++
-		if d := verify(step, call); d != "" {
-			return pbt.Fail("%s", d)
+		if df := verify(step, callf); df != "" {
+			return pbt.Fail("%s", df)
 		}
 		if len(hist) < 500 {
-			hist += " " + call + ";"
+			hist += " " + callf() + ";"
 		} else if !strings.HasSuffix(hist, "...") {
 			hist += " ..."
 		}
 	}
 	// end of case: String and dimensions agree with the model
-	var s string
-	if p := try(func() { s = a.String() }); p != nil {
-		return pbt.Fail("%s array: String() panicked: %v; history: %s", shape, p, hist)
-	}
-	if want := m.String(); s != want {
-		return pbt.Fail("%s array: String() = %q, want %q; history: %s", shape, s, want, hist)
+	if w*h <= stringCells {
+		var s string
+		if p := try(func() { s = a.String() }); p != nil {
+			return pbt.Fail("%s array: String() panicked: %v; history: %s", shape, p, hist)
+		}
+		if want := m.String(); s != want {
+			return pbt.Fail("%s array: String() = %s, want %s; history: %s", shape, clip(s), clip(want), hist)
+		}
 	}
 	if a.Width() != w || a.Height() != h {
 		return pbt.Fail("%s array: Width,Height = %d,%d at the end; history: %s", shape, a.Width(), a.Height(), hist)
@@ -478,20 +683,59 @@ func Run(c Case) pbt.Outcome {
 	return out
 }
 
-func oobLabel(name string, m *model, xs, ys []int) string {
+func typeName[T any](d *desc[T]) string {
+	var z T
+	return fmt.Sprintf("%T", z)
+}
+
+// valName renders a value for messages.
+func valName(code int, v any) string {
+	s := fmt.Sprintf("%v", v)
+	if len(s) > 40 {
+		s = s[:40] + "..."
+	}
+	if code < 0 {
+		return fmt.Sprintf("%s (special value #%d)", s, -code)
+	}
+	return s
+}
+
+// clip keeps both ends of a long String result.
+func clip(s string) string {
+	const n = 600
+	if len(s) > n {
+		return strconv.Quote(s[:n/2]) + "..." + strconv.Quote(s[len(s)-n/2:]) + fmt.Sprintf(" (%d bytes)", len(s))
+	}
+	return strconv.Quote(s)
+}
+
+// wrapsIntoRange reports whether the flat index x + y*stride, computed with wrapping int arithmetic as an
+// implementation would, falls into [0, cells) although (x,y) is outside the bounds.
+func wrapsIntoRange(x, y, stride, cells int) bool {
+	i := x + y*stride
+	return i >= 0 && i < cells
+}
+
+// oobLabels classifies an out-of-bounds call for the histogram.
+func oobLabels(out *pbt.Outcome, name string, w, h int, xs, ys []int) {
+	inX := func(x int) bool { return x >= 0 && x < w }
+	inY := func(y int) bool { return y >= 0 && y < h }
 	ox, oy := false, false
 	for _, x := range xs {
-		ox = ox || !m.inX(x)
+		ox = ox || !inX(x)
 	}
 	for _, y := range ys {
-		oy = oy || !m.inY(y)
+		oy = oy || !inY(y)
 	}
-	edge := false
+	edge, extreme := false, false
+	const big = 1 << 31
 	for _, x := range xs {
-		edge = edge || x == m.w
+		edge = edge || x == w
+		extreme = extreme || x >= big || x <= -big
 	}
 	for _, y := range ys {
-		edge = edge || y == m.h
+		edge = edge || y == h
+		extreme = extreme || y >= big || y <= -big
 	}
 	l := name + ":oob"
 	switch {
@@ -505,7 +749,22 @@ func oobLabel(name string, m *model, xs, ys []int) string {
 	if edge {
 		l += "(==size)"
 	}
-	return l
+	out.Labels = append(out.Labels, l)
+	if extreme {
+		out.Labels = append(out.Labels, name+":oob-extreme(|coordinate|>=2^31)")
+		if len(xs) == 0 {
+			xs = []int{0}
+		}
+		wraps := false
+		for _, x := range xs {
+			for _, y := range ys {
+				wraps = wraps || wrapsIntoRange(x, y, w, w*h)
+			}
+		}
+		if wraps {
+			out.Labels = append(out.Labels, name+":oob-extreme,overflowing-flat-index-lands-inside-the-backing-store")
+		}
+	}
 }
 
 func mod(a, m int) int {
@@ -518,8 +777,8 @@ func mod(a, m int) int {
 
 // ---------------------------------------------------------------- exhaustive unit
 
-// scripts builds the canonical op scripts for one shape.
-func scripts(w, h int, yield func(name string, ops []Op) bool) bool {
+// scripts builds the canonical op scripts for one shape; nspecial is the number of special values of the element type.
+func scripts(w, h, nspecial int, yield func(name string, ops []Op) bool) bool {
 	var setAll []Op
 	for y := 0; y < h; y++ {
 		for x := 0; x < w; x++ {
@@ -607,6 +866,26 @@ func scripts(w, h int, yield func(name string, ops []Op) bool) bool {
 	if !yield("fill-oob", ops) {
 		return false
 	}
+	// special: every special value of the element type (the zero value first) written by Fill and by Set over
+	// cells that hold something else, and ordinary values written over it
+	if w > 0 && h > 0 && nspecial > 0 {
+		ops = nil
+		for k := 1; k <= nspecial; k++ {
+			ops = append(ops, Op{K: OpFill, X1: 0, Y1: 0, X2: w - 1, Y2: h - 1})
+			ops = append(ops, Op{K: OpFill, X1: w - 1, Y1: h - 1, X2: w / 2, Y2: h / 2, V: -k})
+			ops = append(ops, Op{K: OpFill, X1: 0, Y1: 0, X2: w - 1, Y2: h - 1, V: -k})
+			ops = append(ops, Op{K: OpSet, X1: w / 2, Y1: h / 2}, Op{K: OpRow, Y1: h - 1})
+			ops = append(ops, Op{K: OpFill, X1: 0, Y1: 0, X2: w - 1, Y2: h - 1})
+			for _, s := range setAll {
+				s.V = -k
+				ops = append(ops, s)
+			}
+			ops = append(ops, Op{K: OpString}, Op{K: OpClone, B: k})
+		}
+		if !yield("special", ops) {
+			return false
+		}
+	}
 	// clone: mutate the original with the clone as witness, then the other way round
 	ops = []Op{{K: OpClone, B: 0}}
 	ops = append(ops, setAll...)
@@ -615,7 +894,21 @@ func scripts(w, h int, yield func(name string, ops []Op) bool) bool {
 	if w > 0 && h > 0 {
 		ops = append(ops, Op{K: OpFill, X1: w - 1, Y1: h - 1, X2: 0, Y2: 0}, Op{K: OpRow, Y1: h - 1})
 	}
-	return yield("clone", ops)
+	if !yield("clone", ops) {
+		return false
+	}
+	// keep: slices taken from rows and from a span, kept by the caller over Clone, Fill and Set on both sides
+	if w > 0 && h > 0 {
+		ops = []Op{{K: OpRow, Y1: 0}, {K: OpRowSpan, X1: w / 2, X2: w - 1, Y1: h - 1}, {K: OpRow, Y1: h / 2}}
+		ops = append(ops, Op{K: OpFill, X1: 0, Y1: 0, X2: w - 1, Y2: h - 1}, Op{K: OpClone, B: 0})
+		ops = append(ops, setAll...)
+		ops = append(ops, Op{K: OpClone, B: 1}, Op{K: OpFill, X1: 0, Y1: 0, X2: w - 1, Y2: h - 1, V: -1})
+		ops = append(ops, setAll...)
+		if !yield("keep", ops) {
+			return false
+		}
+	}
+	return true
 }
 
 // jagVariants returns the canonical jagged inputs for one shape.
@@ -658,6 +951,44 @@ func jagVariants(w, h int) [][]int {
 	return append(vs, mixed)
 }
 
+// enumShape yields the canonical cases of one shape and element type.
+func enumShape(T string, w, h int, yield func(Case) bool) bool {
+	nsp := nspecials[T]
+	jv := jagVariants(w, h)
+	// constructors alone; New2DFilled with an ordinary value and with every special value (the zero value is -1)
+	if !yield(Case{T: T, W: w, H: h, Ctor: 0}) {
+		return false
+	}
+	for k := 0; k <= nsp; k++ {
+		if !yield(Case{T: T, W: w, H: h, Ctor: 1, FillV: -k}) {
+			return false
+		}
+	}
+	for _, j := range jv {
+		if !yield(Case{T: T, W: w, H: h, Ctor: 2, Jag: j}) {
+			return false
+		}
+	}
+	// every script on every constructor
+	i := 0
+	return scripts(w, h, nsp, func(name string, ops []Op) bool {
+		for ctor := 0; ctor < 3; ctor++ {
+			c := Case{T: T, W: w, H: h, Ctor: ctor, Ops: ops}
+			if ctor == 1 && nsp > 0 {
+				c.FillV = -(i % (nsp + 1)) // ordinary, zero value, other special values in turn
+			}
+			if ctor == 2 {
+				c.Jag = jv[len(jv)-1-(i%2)*8] // mixed / more-rows-longer-rows
+				i++
+			}
+			if !yield(c) {
+				return false
+			}
+		}
+		return true
+	})
+}
+
 func enumerate(tier string, yield func(Case) bool) {
 	max := 7
 	if tier == "thorough" {
@@ -665,34 +996,7 @@ func enumerate(tier string, yield func(Case) bool) {
 	}
 	for w := 0; w <= max; w++ {
 		for h := 0; h <= max; h++ {
-			jv := jagVariants(w, h)
-			// constructors alone
-			for _, c := range []Case{{W: w, H: h, Ctor: 0}, {W: w, H: h, Ctor: 1}} {
-				if !yield(c) {
-					return
-				}
-			}
-			for _, j := range jv {
-				if !yield(Case{W: w, H: h, Ctor: 2, Jag: j}) {
-					return
-				}
-			}
-			// every script on every constructor
-			i := 0
-			ok := scripts(w, h, func(name string, ops []Op) bool {
-				for ctor := 0; ctor < 3; ctor++ {
-					c := Case{W: w, H: h, Ctor: ctor, Ops: ops}
-					if ctor == 2 {
-						c.Jag = jv[len(jv)-1-(i%2)*8] // mixed / more-rows-longer-rows
-						i++
-					}
-					if !yield(c) {
-						return false
-					}
-				}
-				return true
-			})
-			if !ok {
+			if !enumShape("", w, h, yield) {
 				return
 			}
 		}
@@ -701,11 +1005,13 @@ func enumerate(tier string, yield func(Case) bool) {
 
 var specEnum = pbt.Register(&pbt.Spec[Case]{
 	Property: "C08", Name: "C08.enum",
-	Rule: "exhaustive over ALL shapes 0..7 x 0..7 (thorough 0..12 x 0..12): each constructor alone (10 canonical jagged inputs: exact, " +
+	Rule: "element type int, exhaustive over ALL shapes 0..7 x 0..7 (thorough 0..12 x 0..12): each constructor alone (New2DFilled with 7 and with each special int " +
+		"0 = zero value, -1, MaxInt, MinInt; 10 canonical jagged inputs: exact, " +
 		"more/fewer rows, longer/shorter rows, none, empty rows, nil rows, mixed), then on each of the 3 constructors the canonical scripts: " +
 		"set (every cell, then every coordinate of the ring -2..w+1 x -2..h+1 outside), get (that whole ring and the inside), row (every y in " +
 		"-2..h+1), span (every x1 <= x2 in every row + every combination with a coordinate just outside), fill (every ordered pair of corners, " +
-		"i.e. all four corner orders, + corners just outside), clone (mutate either side against a frozen witness); " + rule,
+		"i.e. all four corner orders, + corners just outside), special (each special value written by Fill and by Set over other values and " +
+		"overwritten again), clone (mutate either side against a frozen witness), keep (returned slices kept over Clone/Fill/Set on both sides); " + rule,
 	Enum: func(shard, shards int, tier string, yield func(Case) bool) { enumerate(tier, yield) },
 	Run:  Run, Exhaustive: true,
 })
@@ -725,13 +1031,51 @@ func genCase(t *rapid.T) Case {
 		}
 		return uni(max+1, name+"_any") // 0..max
 	}
-	c := Case{W: dim("w"), H: dim("h"), Ctor: rapid.IntRange(0, 2).Draw(t, "ctor")}
+	var c Case
+	maxOps := 31
+	switch sc := uni(100, "sizeclass"); {
+	case sc < 78: // small
+		c.W, c.H = dim("w"), dim("h")
+	case sc < 88: // medium
+		c.W, c.H = 1+uni(24, "w"), 1+uni(24, "h")
+		maxOps = 16
+	case sc < 95: // one side next to a power of two
+		p := []int{15, 16, 17, 31, 32, 33, 63, 64, 65, 127, 128, 129, 255, 256, 257}[uni(15, "pow2")]
+		q := 1 + uni(33, "other")
+		if rapid.Bool().Draw(t, "tall") {
+			c.W, c.H = q, p
+		} else {
+			c.W, c.H = p, q
+		}
+		maxOps = 10
+	default: // long and thin: 1..4 by up to 9000 cells, either way round
+		q := 1 + uni(4, "thin")
+		p := 1 << uni(14, "longexp")
+		p += uni(p, "longoff")
+		if q*p > 9000 {
+			p = 9000 / q
+		}
+		if rapid.Bool().Draw(t, "tall") {
+			c.W, c.H = q, p
+		} else {
+			c.W, c.H = p, q
+		}
+		maxOps = 8
+	}
 	w, h := c.W, c.H
+	if rapid.IntRange(0, 3).Draw(t, "other_type") == 0 {
+		c.T = typeOrder[uni(len(typeOrder), "type")]
+	}
+	nsp := nspecials[c.T]
+	c.Ctor = rapid.IntRange(0, 2).Draw(t, "ctor")
+	if c.Ctor == 1 && nsp > 0 && rapid.IntRange(0, 2).Draw(t, "fill_special") == 0 {
+		c.FillV = -1 - uni(nsp, "fillv")
+	}
 	if c.Ctor == 2 {
 		c.Jag = rapid.SliceOfN(rapid.IntRange(-1, w+3), 0, h+3).Draw(t, "jag")
 	}
 	// coordinate generators: in = inside the bounds (biased to the last and first index), out = outside
-	coord := func(n int, valid bool, name string) int {
+	coord := func(n, stride int, valid bool, name string) int {
 		if valid && n > 0 {
 			switch rapid.IntRange(0, 7).Draw(t, name+"_bias") {
 			case 0, 1:
@@ -741,36 +1085,65 @@ func genCase(t *rapid.T) Case {
 			}
 			return rapid.IntRange(0, n-1).Draw(t, name)
 		}
+		if rapid.IntRange(0, 3).Draw(t, name+"_extreme") == 0 {
+			ex := extremes(n, stride)
+			return ex[uni(len(ex), name+"_ex")]
+		}
 		return rapid.SampledFrom([]int{n, -1, n + 1, -2, n, n + 100, -1000}).Draw(t, name+"_out")
 	}
 	kinds := []int{OpSet, OpSet, OpSet, OpSet, OpGet, OpGet, OpRow, OpRow, OpRowSpan, OpRowSpan, OpRowSpan, OpFill, OpFill, OpFill, OpClone, OpString, OpDims}
-	nops := uni(31, "nops")
+	nops := uni(maxOps, "nops")
 	c.Ops = rapid.SliceOfN(rapid.Custom(func(t *rapid.T) Op {
 		op := Op{K: rapid.SampledFrom(kinds).Draw(t, "k")}
 		allValid := rapid.IntRange(0, 4).Draw(t, "all_valid") > 0 // 80 %: every coordinate inside (when the shape allows)
 		v := func() bool { return allValid || rapid.Bool().Draw(t, "valid") }
 		switch op.K {
 		case OpSet, OpGet:
-			op.X1, op.Y1 = coord(w, v(), "x"), coord(h, v(), "y")
+			op.X1, op.Y1 = coord(w, 1, v(), "x"), coord(h, w, v(), "y")
 		case OpRow:
-			op.Y1 = coord(h, v(), "y")
+			op.Y1 = coord(h, w, v(), "y")
 		case OpRowSpan:
-			op.X1, op.X2, op.Y1 = coord(w, v(), "x1"), coord(w, v(), "x2"), coord(h, v(), "y")
+			op.X1, op.X2, op.Y1 = coord(w, 1, v(), "x1"), coord(w, 1, v(), "x2"), coord(h, w, v(), "y")
 		case OpFill:
-			op.X1, op.Y1, op.X2, op.Y2 = coord(w, v(), "x1"), coord(h, v(), "y1"), coord(w, v(), "x2"), coord(h, v(), "y2")
+			op.X1, op.Y1, op.X2, op.Y2 = coord(w, 1, v(), "x1"), coord(h, w, v(), "y1"), coord(w, 1, v(), "x2"), coord(h, w, v(), "y2")
 		case OpClone:
 			op.B = rapid.IntRange(0, 1).Draw(t, "b")
 		}
+		if (op.K == OpSet || op.K == OpFill) && nsp > 0 && rapid.IntRange(0, 5).Draw(t, "special_value") == 0 {
+			op.V = -1 - uni(nsp, "v")
+		}
 		return op
 	}), nops, nops).Draw(t, "ops")
+	// a coordinate whose flat index overflows back into the backing store (see extreme_test.go)
+	if n := len(c.Ops); n > 0 && w > 0 && h > 0 && rapid.IntRange(0, 9).Draw(t, "wrap") == 0 {
+		op := &c.Ops[uni(n, "wrap_op")]
+		x := uni(w, "wrap_x")
+		if y, ok := solveY(uni(w*h, "wrap_target"), x, w, h, rapid.Uint64().Draw(t, "wrap_j")); ok {
+			switch op.K {
+			case OpSet, OpGet:
+				op.X1, op.Y1 = x, y
+			case OpRow:
+				op.Y1 = y
+			case OpRowSpan:
+				op.X1, op.X2, op.Y1 = x, x, y
+			case OpFill:
+				op.X1, op.X2, op.Y1, op.Y2 = x, x, y, y
+			}
+		}
+	}
 	return c
 }
 
 var specRand = pbt.Register(&pbt.Spec[Case]{
 	Property: "C08", Name: "C08.rand",
-	Rule: "rapid: w,h near-uniform on 0..7 (thorough 0..12) with 0 made rarer, constructor uniform, jagged input 0..h+3 rows of length -1(nil)..w+3, 0..30 operations; 80 % of " +
-		"the operations have every coordinate inside (biased to the last/first index), the rest draw each coordinate outside " +
-		"(size, -1, size+1, -2, far away) with probability 1/2; " + rule,
+	Rule: "rapid: shape classes: 78 % w,h near-uniform on 0..7 (thorough 0..12) with 0 made rarer (<= 30 operations); 10 % 1..24 x 1..24 (<= 15 operations); 7 % one side " +
+		"in {2^k-1, 2^k, 2^k+1 : k = 4..8} and the other 1..33 (<= 9 operations); 5 % 1..4 by up to 9000 cells, wide or tall (<= 7 operations); element type int in 3/4 " +
+		"of the cases, else one of the types of C08.types; constructor uniform (New2DFilled with a special value - zero value, -0.0, nil, ... - in 1/3 of its cases), " +
+		"jagged input 0..h+3 rows of length -1(nil)..w+3; 80 % of " +
+		"the operations have every coordinate inside (biased to the last/first index), the rest draw each coordinate outside with probability 1/2: " +
+		"size, -1, size+1, -2, far away, and in 1/4 of these an extreme value (MaxInt, MinInt, +-2^k, +-2^k+-1 for k = 31, 32, 62, 63, the " +
+		"values around MaxInt/stride and 2^64/stride where the flat index overflows); 1/6 of the Set/Fill write a special value; in 1/10 of the cases " +
+		"one operation gets a y solved so that x + y*width overflows to an index inside the backing store; " + rule,
 	Gen: genCase,
 	Run: Run, Quick: 40000, Thorough: 150000,
 })
